@@ -1,1 +1,329 @@
-// placeholder
+// ======================================================================================
+// units/C08/paged_store.rs — Memory::store under contract.
+//
+// `store(A, value)` with n = |value| bytes and W = A + n works in three phases on the cell map:
+//   1. tail:  if the cell at W is Backref(b1), the value at b1 reaches past the write; its bytes from W
+//             on are loaded (t1) and re-stored at W as a value of their own;
+//   2. head:  if the cell at A is Backref(b2), the value at b2 reaches into the write; its bytes before A
+//             are loaded (t2) and re-stored at b2 as a shorter value;
+//   3. the new value is stored at A.
+// Between the phases the representation invariant is broken (coverage of b1 after phase 1, dangling
+// back-references in [A, W) after phase 2); the lemmas below describe exactly what holds in between and
+// that the final cell map is well-formed and has the old byte view overridden on [A, W) only.
+// ======================================================================================
+
+/// the final cell map in terms of the cell map on entry and what the first two phases re-stored
+pub open spec fn store_cells<V: Value>(c0: Cells<V>, a: u64, value: V, ph1: Option<(u64, V)>, ph2: Option<(u64, V)>) -> Cells<V> {
+    let w = (a + vlen(value)) as u64;
+    let c1 = match ph1 { Some(p) => write_cells(c0, w, p.1, vlen(p.1)), None => c0 };
+    let c2 = match ph2 { Some(p) => write_cells(c1, p.0, p.1, vlen(p.1)), None => c1 };
+    write_cells(c2, a, value, vlen(value))
+}
+
+/// what phase 1 found and produced: the cell at w is Backref(b1) and t1 holds the bytes [w, end of b1)
+pub open spec fn tail_ok<V: Value>(e: Endian, c0: Cells<V>, w: u64, ph1: Option<(u64, V)>) -> bool {
+    &&& ph1 is Some <==> (c0.contains_key(w) && c0[w] is Backref)
+    &&& ph1 matches Some(p) ==> {
+            &&& c0[w] == MemoryCell::<V>::Backref(p.0)
+            &&& val_ok(p.1)
+            &&& w + vlen(p.1) == end_of(c0, p.0)
+            &&& forall|i: int| 0 <= i < vlen(p.1) ==> own_at(e, c0, (w + i) as u64) == Some(#[trigger] vbyte(e, p.1, i))
+        }
+}
+
+/// what phase 2 found and produced: the cell at a is Backref(b2) and t2 holds the bytes [b2, a)
+pub open spec fn head_ok<V: Value>(e: Endian, c0: Cells<V>, a: u64, ph2: Option<(u64, V)>) -> bool {
+    &&& ph2 is Some <==> (c0.contains_key(a) && c0[a] is Backref)
+    &&& ph2 matches Some(p) ==> {
+            &&& c0[a] == MemoryCell::<V>::Backref(p.0)
+            &&& val_ok(p.1)
+            &&& p.0 + vlen(p.1) == a
+            &&& forall|i: int| 0 <= i < vlen(p.1) ==> own_at(e, c0, (p.0 + i) as u64) == Some(#[trigger] vbyte(e, p.1, i))
+        }
+}
+
+/// phase 1: the value referenced from w covers [w, its end) with cells, so all those bytes are present
+pub proof fn lemma_store_tail_pre<V: Value>(e: Endian, c0: Cells<V>, bk: Option<SecMap>, w: u64)
+    requires cells_wf(c0), c0.contains_key(w), c0[w] is Backref,
+    ensures ({
+        let b1 = c0[w]->Backref_0;
+        &&& b1 < w && is_val(c0, b1) && val_ok(val_at(c0, b1)) && w < end_of(c0, b1) <= u64::MAX
+        &&& all_present(e, c0, bk, w, (end_of(c0, b1) - w) as nat)
+        &&& forall|x: u64| w <= x < end_of(c0, b1) ==> #[trigger] c0.contains_key(x)
+    }),
+{
+    let b1 = c0[w]->Backref_0;
+    assert(inv_ref(c0, w));
+    assert(inv_val(c0, b1));
+    assert forall|x: u64| w <= x < end_of(c0, b1) implies #[trigger] c0.contains_key(x) by {
+        assert(inv_cov(c0, b1, x));
+    }
+    assert forall|i: int| 0 <= i < end_of(c0, b1) - w implies (#[trigger] full_at(e, c0, bk, w + i)) is Some by {
+        assert(c0.contains_key((w + i) as u64));
+    }
+}
+
+/// where cells exist, `reads` speaks about the memory's own bytes
+pub proof fn lemma_reads_own<V: Value>(e: Endian, c: Cells<V>, bk: Option<SecMap>, address: u64, v: V)
+    requires
+        reads(e, c, bk, address, v),
+        address + vlen(v) <= u64::MAX,
+        forall|x: u64| address <= x < address + vlen(v) ==> #[trigger] c.contains_key(x),
+    ensures forall|i: int| 0 <= i < vlen(v) ==> own_at(e, c, (address + i) as u64) == Some(#[trigger] vbyte(e, v, i)),
+{
+    assert forall|i: int| 0 <= i < vlen(v) implies own_at(e, c, (address + i) as u64) == Some(#[trigger] vbyte(e, v, i)) by {
+        assert(full_at(e, c, bk, address + i) == Some(vbyte(e, v, i)));
+        assert(c.contains_key((address + i) as u64));
+    }
+}
+
+/// the state between phase 1 and phase 2, seen from the head [b2, a): everything `load(b2, ..)` needs
+pub proof fn lemma_store_mid<V: Value>(e: Endian, c0: Cells<V>, bk: Option<SecMap>, a: u64, w: u64, ph1: Option<(u64, V)>, c1: Cells<V>)
+    requires
+        cells_wf(c0), a < w,
+        tail_ok(e, c0, w, ph1),
+        c1 == (match ph1 { Some(p) => write_cells(c0, w, p.1, vlen(p.1)), None => c0 }),
+        c0.contains_key(a), c0[a] is Backref,
+    ensures ({
+        let b2 = c0[a]->Backref_0;
+        &&& b2 < a && a < end_of(c0, b2) <= u64::MAX && val_ok(val_at(c0, b2))
+        &&& cells_base(c1) && cells_cov_on(c1, b2 as int, a as int)
+        &&& c1.contains_key(a) && c1[a] == c0[a] && is_val(c1, b2) && val_at(c1, b2) == val_at(c0, b2)
+        &&& all_present(e, c1, bk, b2, (a - b2) as nat)
+        &&& forall|x: u64| b2 <= x < a ==> c1.contains_key(x) && #[trigger] own_at(e, c1, x) == own_at(e, c0, x)
+    }),
+{
+    let b2 = c0[a]->Backref_0;
+    assert(inv_ref(c0, a));
+    assert(inv_val(c0, b2));
+    match ph1 {
+        None => {
+            assert forall|x: u64| b2 <= x < a implies c1.contains_key(x) && #[trigger] own_at(e, c1, x) == own_at(e, c0, x) by {
+                if x != b2 { assert(inv_cov(c0, b2, x)); }
+            }
+        },
+        Some(p) => {
+            let b1 = p.0;
+            let t1 = p.1;
+            let f1 = w + vlen(t1);
+            assert(inv_ref(c0, w));
+            assert(inv_val(c0, b1));
+            // cells of c0 in [w, f1) are back-references to b1, never values
+            assert forall|y: u64| w <= y < f1 implies !is_val(c0, y) by {
+                assert(inv_cov(c0, b1, y));
+            }
+            assert forall|y: u64| #[trigger] inv_val(c1, y) by {
+                assert(inv_val(c0, y));
+            }
+            assert forall|x: u64| #[trigger] inv_ref(c1, x) by {
+                assert(inv_ref(c0, x));
+                if !(w <= x < f1) && c0.contains_key(x) && c0[x] is Backref {
+                    let y = c0[x]->Backref_0;
+                    assert(!(w <= y < f1));
+                }
+            }
+            assert forall|y: u64, x: u64| b2 <= x < a implies #[trigger] inv_cov(c1, y, x) by {
+                assert(inv_cov(c0, y, x));
+            }
+            assert forall|x: u64| b2 <= x < a implies c1.contains_key(x) && #[trigger] own_at(e, c1, x) == own_at(e, c0, x) by {
+                if x != b2 { assert(inv_cov(c0, b2, x)); }
+            }
+        },
+    }
+    assert forall|i: int| 0 <= i < a - b2 implies (#[trigger] full_at(e, c1, bk, b2 + i)) is Some by {
+        let x = (b2 + i) as u64;
+        assert(c1.contains_key(x));
+        assert(own_at(e, c1, x) == own_at(e, c0, x));
+    }
+}
+
+/// the changed region [lo, hi) swallows every value of the old cell map that it touches:
+/// values that start before lo end at or before lo, values that start inside end at or before hi
+pub open spec fn store_lo<V: Value>(a: u64, ph2: Option<(u64, V)>) -> u64 { match ph2 { Some(p) => p.0, None => a } }
+pub open spec fn store_hi<V: Value>(w: u64, ph1: Option<(u64, V)>) -> int { match ph1 { Some(p) => w + vlen(p.1), None => w as int } }
+
+pub proof fn lemma_store_region<V: Value>(e: Endian, c0: Cells<V>, a: u64, w: u64, ph1: Option<(u64, V)>, ph2: Option<(u64, V)>)
+    requires
+        cells_wf(c0), a < w,
+        tail_ok(e, c0, w, ph1),
+        head_ok(e, c0, a, ph2),
+    ensures
+        store_lo(a, ph2) <= a && w <= store_hi(w, ph1) <= u64::MAX,
+        forall|y: u64| is_val(c0, y) && y < store_lo(a, ph2) ==> #[trigger] end_of(c0, y) <= store_lo(a, ph2),
+        forall|y: u64| is_val(c0, y) && store_lo(a, ph2) <= y < store_hi(w, ph1) ==> #[trigger] end_of(c0, y) <= store_hi(w, ph1),
+        ph2 matches Some(p) ==> is_val(c0, p.0) && a < end_of(c0, p.0) && (forall|x: u64| p.0 < x < a ==> #[trigger] is_ref(c0, x, p.0)),
+        ph1 matches Some(p) ==> is_val(c0, p.0) && p.0 < w && (forall|x: u64| w <= x < w + vlen(p.1) ==> #[trigger] is_ref(c0, x, p.0)),
+{
+    let lo = store_lo(a, ph2);
+    let hi = store_hi(w, ph1);
+    assert(inv_ref(c0, a));
+    assert(inv_ref(c0, w));
+    if let Some(p) = ph1 {
+        assert(inv_val(c0, p.0));
+        assert forall|x: u64| w <= x < w + vlen(p.1) implies #[trigger] is_ref(c0, x, p.0) by { assert(inv_cov(c0, p.0, x)); }
+    }
+    if let Some(p) = ph2 {
+        assert(inv_val(c0, p.0));
+        assert forall|x: u64| p.0 < x < a implies #[trigger] is_ref(c0, x, p.0) by { assert(inv_cov(c0, p.0, x)); }
+    }
+    assert forall|y: u64| is_val(c0, y) && y < lo implies #[trigger] end_of(c0, y) <= lo by {
+        if end_of(c0, y) > lo {
+            // y's value covers lo: the cell at lo is a back-reference to y
+            assert(inv_cov(c0, y, lo));
+            // lo is a (no head) or b2: a holds Backref(b2) with b2 == lo, b2 holds a value
+        }
+    }
+    assert forall|y: u64| is_val(c0, y) && lo <= y < hi implies #[trigger] end_of(c0, y) <= hi by {
+        if end_of(c0, y) > hi {
+            assert(inv_val(c0, y));
+            if y < a {
+                // y is in the head: it is b2 itself (the others are back-references)
+                if y != lo { assert(inv_cov(c0, lo, y)); }
+                assert(inv_cov(c0, y, w));
+            } else if y < w {
+                assert(inv_cov(c0, y, w));
+            } else {
+                // y in [w, hi): a back-reference to b1
+                assert(inv_cov(c0, ph1->Some_0.0, y));
+            }
+        }
+    }
+}
+
+/// the final cell map is well-formed and its byte view is the old one overridden on [a, a + |value|)
+pub proof fn lemma_store_final<V: Value>(e: Endian, c0: Cells<V>, a: u64, value: V, ph1: Option<(u64, V)>, ph2: Option<(u64, V)>, c3: Cells<V>)
+    requires
+        cells_wf(c0), val_ok(value), a + vlen(value) <= u64::MAX,
+        tail_ok(e, c0, (a + vlen(value)) as u64, ph1),
+        head_ok(e, c0, a, ph2),
+        c3 == store_cells(c0, a, value, ph1, ph2),
+    ensures
+        cells_wf(c3),
+        forall|x: u64| #[trigger] own_at(e, c3, x) == (if a <= x < a + vlen(value) { Some(vbyte(e, value, x - a)) } else { own_at(e, c0, x) }),
+{
+    let w = (a + vlen(value)) as u64;
+    let lo = store_lo(a, ph2);
+    let hi = store_hi(w, ph1);
+    lemma_store_region(e, c0, a, w, ph1, ph2);
+    // cells outside [lo, hi) are untouched
+    assert forall|x: u64| !(lo <= x < hi) implies c3.contains_key(x) == c0.contains_key(x) && (c0.contains_key(x) ==> #[trigger] c3[x] == c0[x]) by {}
+    // cells inside: three stretches, each a value followed by back-references to it
+    assert forall|x: u64| a <= x < w implies c3.contains_key(x) && #[trigger] c3[x] == (if x == a { MemoryCell::Value(value) } else { MemoryCell::Backref(a) }) by {}
+    if let Some(p) = ph2 {
+        assert forall|x: u64| p.0 <= x < a implies c3.contains_key(x) && #[trigger] c3[x] == (if x == p.0 { MemoryCell::Value(p.1) } else { MemoryCell::Backref(p.0) }) by {}
+    }
+    if let Some(p) = ph1 {
+        assert forall|x: u64| w <= x < hi implies c3.contains_key(x) && #[trigger] c3[x] == (if x == w { MemoryCell::Value(p.1) } else { MemoryCell::Backref(w) }) by {}
+    }
+    assert forall|y: u64| #[trigger] inv_val(c3, y) by {
+        assert(inv_val(c0, y));
+    }
+    assert forall|x: u64| #[trigger] inv_ref(c3, x) by {
+        assert(inv_ref(c0, x));
+        if !(lo <= x < hi) && c0.contains_key(x) && c0[x] is Backref {
+            let y = c0[x]->Backref_0;
+            // the referenced value lies outside the changed region: otherwise it would end before x
+            assert(end_of(c0, y) > x);
+            if y < lo { assert(end_of(c0, y) <= lo); }
+            if lo <= y < hi { assert(end_of(c0, y) <= hi); }
+        }
+    }
+    assert forall|y: u64, x: u64| #[trigger] inv_cov(c3, y, x) by {
+        if is_val(c3, y) && y < x < end_of(c3, y) {
+            if lo <= y < hi {
+                // one of the three new values
+            } else {
+                assert(inv_cov(c0, y, x));
+                assert(inv_val(c0, y));
+                if y < lo { assert(end_of(c0, y) <= lo); }
+            }
+        }
+    }
+    assert forall|x: u64| #[trigger] own_at(e, c3, x) == (if a <= x < a + vlen(value) { Some(vbyte(e, value, x - a)) } else { own_at(e, c0, x) }) by {
+        if a <= x < w {
+        } else if lo <= x < a {
+            let p = ph2->Some_0;
+            assert(vbyte(e, p.1, x - p.0) == vbyte(e, p.1, x - p.0));
+            assert(own_at(e, c0, (p.0 + (x - p.0)) as u64) == Some(vbyte(e, p.1, x - p.0)));
+        } else if w <= x < hi {
+            let p = ph1->Some_0;
+            assert(own_at(e, c0, (w + (x - w)) as u64) == Some(vbyte(e, p.1, x - w)));
+        } else {
+            assert(inv_ref(c0, x));
+            if c0.contains_key(x) && c0[x] is Backref {
+                let y = c0[x]->Backref_0;
+                if y < lo { assert(end_of(c0, y) <= lo); }
+                if lo <= y < hi { assert(end_of(c0, y) <= hi); }
+            }
+        }
+    }
+}
+
+impl<V> Memory<V>
+where
+    V: Value,
+{
+//@ fn impl<V> Memory<V> :: fn store
+//@ attr #[verifier::spinoff_prover]
+//@ spec
+    requires
+        old(self).wf(),
+        value.vwf(),
+        // finding (iv): `address + bytes` is computed in u64; the write must end at or before the last address
+        (value.vbits() % 8 == 0 && value.vbits() != 0) ==> address + vlen(value) <= u64::MAX,
+    ensures
+        /*@err*/ (value.vbits() % 8 != 0 || value.vbits() == 0) ==> r is Err && *final(self) == *old(self),
+        /*@ok*/ (value.vbits() % 8 == 0 && value.vbits() != 0) ==> r is Ok,
+        /*@wf*/ final(self).wf(),
+        /*@view*/ (value.vbits() % 8 == 0 && value.vbits() != 0) ==> forall|x: u64| #[trigger] final(self).own(x) == (
+            if address <= x < address + vlen(value) { Some(vbyte(old(self).endian, value, x - address)) } else { old(self).own(x) }),
+        /*@frame*/ final(self).endian == old(self).endian && final(self).backing == old(self).backing,
+        /*@perm*/ forall|x: u64| (#[trigger] final(self).perm(x)) == old(self).perm(x),
+//@ enter
+    let ghost ge = self.endian;
+    let ghost gbk = self.bk();
+    let ghost c0 = self.cells();
+    let ghost mut ph1: Option<(u64, V)> = None;
+    let ghost mut ph2: Option<(u64, V)> = None;
+//@ before 0 `let address_after_write`
+    proof { value.lemma_value_laws(); }
+//@ before 0 `let value_to_write = if let Some(MemoryCell::Backref(backref_address)) = self.load_cell(`
+    proof {
+        if c0.contains_key(address_after_write) && c0[address_after_write] is Backref {
+            lemma_store_tail_pre(ge, c0, gbk, address_after_write);
+        }
+    }
+//@ before 0 `if let Some(value_to_write) = value_to_write`
+    proof {
+        if value_to_write is Some {
+            let t1 = value_to_write->Some_0;
+            let b1 = c0[address_after_write]->Backref_0;
+            lemma_reads_own(ge, c0, gbk, address_after_write, t1);
+            ph1 = Some((b1, t1));
+        }
+        assert(tail_ok(ge, c0, address_after_write, ph1));
+    }
+//@ before 1 `let value_to_write = if let Some(MemoryCell::Backref(backref_address)) = self.load_cell(`
+    let ghost c1 = self.cells();
+    proof {
+        assert(c1.contains_key(address) == c0.contains_key(address) && (c0.contains_key(address) ==> c1[address] == c0[address]));
+        if c0.contains_key(address) && c0[address] is Backref {
+            lemma_store_mid(ge, c0, gbk, address, address_after_write, ph1, c1);
+        }
+    }
+//@ before 1 `if let Some(value_to_write) = value_to_write`
+    proof {
+        if value_to_write is Some {
+            let b2 = value_to_write->Some_0.0;
+            let t2 = value_to_write->Some_0.1->Some_0;
+            lemma_reads_own(ge, c1, gbk, b2, t2);
+            ph2 = Some((b2, t2));
+        }
+        assert(head_ok(ge, c0, address, ph2));
+    }
+//@ before 0 `Ok(())`
+    proof {
+        lemma_store_final(ge, c0, address, value, ph1, ph2, self.cells());
+    }
+//@ end
+}
